@@ -61,7 +61,7 @@ def gen_case(rng, idx, seed):
         bij = str(rng.choice(["Sigmoid", "default"]))
     else:
         fam = "Normal"
-        bij = str(rng.choice(["Identity", "Scale", "Shift"]))
+        bij = str(rng.choice(["Identity", "Scale", "Shift", "default"]))     # default: Identity for a variable on R
     if bij == "default":
         entry = str(rng.choice(["var_default", "auto", "gb_default"]))
     elif bij in ("Scale", "Shift"):
@@ -89,7 +89,8 @@ def gen_case(rng, idx, seed):
             "chain2": str(rng.choice(["none", "none", "instance", "class"])) if entry.startswith("var_") else "none",
             "chain2_scale": float(rng.choice([0.5, 2.0, 3.0])),
             # whether the log-density is stored per observation or summed
-            "per_obs": bool(rng.random() < 0.6)}
+            "per_obs": bool(rng.random() < 0.6),
+            "weak_params": bool(rng.random() < 0.35)}
 
 
 def support_value(rng, fam, shape, args=None):
@@ -123,10 +124,23 @@ def run_case(case):
     try:
         # ---- build the variable
         pvars = {}
+        pbase = {}
         dargs = {}
         for k, v in case["args"].items():
             if case["arg_is_var"].get(k):
-                pvars[k] = lsl.Var(jnp.asarray(v, ft), name=f"p_{k}")
+                if case.get("weak_params"):
+                    # the parameter is a weak variable (a calculation of another variable) whose input was re-assigned
+                    # while it belonged to no model and without an update: its cached value is stale at transform time
+                    pbase[k] = lsl.Var(jnp.asarray(v * 0.5, ft), name=f"pb_{k}")
+                    pvars[k] = lsl.Var(lsl.Calc(lambda b_: b_ * 1.0, pbase[k]), name=f"p_{k}").update()
+                    pbase[k].value = jnp.asarray(v, ft)
+                    if not entry.startswith("gb_"):
+                        # Var.transform works on the cached values (outside a model nothing refreshes them): the user
+                        # updates first. Only the deprecated GraphBuilder.transform refreshes the inputs itself.
+                        pvars[k].update()
+                else:
+                    pvars[k] = lsl.Var(jnp.asarray(v, ft), name=f"p_{k}")
+                    pbase[k] = pvars[k]
                 dargs[k] = pvars[k]
             else:
                 dargs[k] = jnp.asarray(v, ft)
@@ -312,7 +326,7 @@ def run_case(case):
                 # re-assign a parameter variable now and then
                 if pvars and rng.random() < 0.3:
                     k = list(pvars)[int(rng.integers(len(pvars)))]
-                    pvars[k].value = jnp.asarray(case["args"][k] * float(np.round(rng.uniform(0.7, 1.4), 2)), ft)
+                    pbase[k].value = jnp.asarray(case["args"][k] * float(np.round(rng.uniform(0.7, 1.4), 2)), ft)
                 if barg_var is not None and rng.random() < 0.3:
                     barg_var.value = jnp.asarray(float(np.round(rng.uniform(0.5, 3.0), 2)), ft)
                 tvar.value = jnp.asarray(t, ft)
@@ -364,7 +378,7 @@ def run_case(case):
             new_args = {}
             for k in pvars:
                 nv = float(case["args"][k] * 1.3)
-                M2.vars[f"p_{k}"].value = jnp.asarray(nv, ft)
+                M2.vars[pbase[k].name].value = jnp.asarray(nv, ft)
                 new_args[k] = nv
             nb = None
             if barg_var is not None:
@@ -414,6 +428,11 @@ def gen_cases(tier, seed):
     for i in range(n):
         rng = rng_for(seed, "c14-gen", i)
         c = gen_case(rng, i, seed)
+        if i % 10 == 7:
+            # a fixed share of the cases: parameter-dependent default bijector (Uniform(low, high) with `high` a weak
+            # variable whose input was re-assigned without an update) through the deprecated GraphBuilder.transform
+            c.update({"fam": "Uniform", "bij": "default", "entry": "gb_default", "args": {"low": 0.0, "high": float(np.round(rng.uniform(1.5, 3.0), 2))},
+                      "arg_is_var": {"high": True}, "weak_params": True, "chain2": "none", "init": "array", "failed_first": "none"})
         c["cost"] = 2
         out.append(c)
     return out
